@@ -68,8 +68,36 @@ func runC04(t *testing.T, seed int64, n int, out *Out) {
 				reqs = append(reqs, rq)
 			}
 		})
+		// every dozen blocks the oracle price jumps (in a block of its own): the oracle pools' value weights move away from
+		// their targets WITHOUT anyone having paid a weight-breaking fee, so recovering swaps earn a bonus that the (empty or
+		// nearly empty) rebalance treasury cannot fully pay
+		if b%12 == 7 {
+			h.std.Prices["ATOM"] = D([]string{"1", "5", "20", "5", "1.5", "5", "15", "5"}[(b/12)%8])
+			pt := h.priceTxFixed()
+			w.Block(5*time.Second, []TxReq{pt.req})
+			stats["price-jump"]++
+		}
 		ctx := w.Ctx()
 		var txs []TxReq
+		// every dozen blocks a whale pushes one of the oracle pools far from its target weights (beyond the weight-difference
+		// threshold): for a while swaps in the recovering direction earn a bonus out of the pool's rebalance treasury, capped by
+		// what the treasury holds, and swaps in the other direction pay the weight-breaking fee into it
+		if b%12 == 1 {
+			p := std.Pools[2+r.Intn(2)]
+			if pool, ok := w.App.AmmKeeper.GetPool(ctx, p.Id); ok {
+				din := []string{"uusdc", "uatom"}[r.Intn(2)]
+				dout := map[string]string{"uusdc": "uatom", "uatom": "uusdc"}[din]
+				for _, pa := range pool.PoolAssets {
+					if pa.Token.Denom == din {
+						u := h.user()
+						amt := pa.Token.Amount.MulRaw([]int64{8, 15, 30}[r.Intn(3)]).QuoRaw(10)
+						txs = append(txs, TxReq{Signer: u, Msgs: []sdk.Msg{&ammtypes.MsgSwapExactAmountIn{Sender: u.Addr.String(), Routes: []ammtypes.SwapAmountInRoute{{PoolId: p.Id, TokenOutDenom: dout}},
+							TokenIn: sdk.NewCoin(din, amt), TokenOutMinAmount: math.OneInt(), Recipient: u.Addr.String()}}})
+						stats["whale-imbalance"]++
+					}
+				}
+			}
+		}
 		// a price-moving swap by an ordinary user, sometimes, before the requests
 		if r.Intn(3) == 0 {
 			if tx := h.genTxKind("amm.swapIn"); tx != nil {
